@@ -28,6 +28,22 @@ Engine E2 (vf/engines/aio.py): exhaustive enumeration of schedules of the REAL
                [model(t) for t in texts] in input order; S returns the item whose text is the query (its vector
                is the nearest to model(query) only); when all requests are done `_req_queue` and
                `_req_results` are empty.  Cache efficiency and the number of model calls are counted, not demanded.
+  families     (vf/props/c19_env.py: the same Env with three more kinds of environment behaviour)
+               burst-arrival      all requests of a round are started by ONE choice, before the loop runs again
+                                  (asyncio.gather): the way a request finds the batch queue full at quiescence
+                                  granularity; two rounds
+               second-event-loop  round 2 runs on a fresh virtual loop after the first one was wound up as
+                                  asyncio.run does it; same index objects (separate arrivals, bursts, and two
+                                  deviation-bounded configurations at loop-iteration granularity).  What a request
+                                  of the second loop shows is reported as "second-event-loop:<class>"
+               model-call-raises  ("ext", ("model-raises", j)): the j-th model call raises ModelCallFailed instead of
+                                  answering; at most one call raises per schedule.  Oracle there: a request that was
+                                  under way when the call raised returns model(text) or ends with that error; nobody
+                                  waits for ever; a request that arrives later gets model(text) (when the failure
+                                  left requests waiting, the next round is released once nothing else can happen);
+                                  `_req_queue` / `_req_results` empty when all returned.  Everything seen in such a
+                                  schedule is reported as "model-call-raises:<class>".  The property's quantifier
+                                  names model latency, not model failure: MODEL_FAILURE_FAMILY switches the family off
   binding      during every prefix replay the enabled list at every depth must equal the recorded one; 1-in-N
                schedules (by hash of the trace) are re-run twice from scratch and must give identical
                observations (traces_validated_against_impl); a divergence is a harness error.
@@ -38,9 +54,12 @@ import gc
 import hashlib
 import itertools
 import os
+import re
 import shutil
 import tempfile
 import time
+
+from vf.props.c19_env import C19Env, ModelCallFailed, is_injected
 
 PROP = "C19"
 ENGINE = "verif_c19"
@@ -101,7 +120,12 @@ def lib():
                 return [vec(t, m) for t in docs]
             j = len(w.calls)
             w.calls.append(docs)
-            await w.env.external(("model", j))
+            fut = w.env.external(("model", j))
+            if w.cfg.get("fail") and w.failed is None:
+                # the same call has a second possible answer: it raises (at most one such answer per schedule)
+                w.env._externals.append([("model-raises", j), fut, None,
+                                         ModelCallFailed(f"injected failure of model call {j}")])
+            await fut
             return [vec(t, m) for t in docs]     # fresh list objects every time
 
         def encode(self, documents):
@@ -130,7 +154,7 @@ def lib():
 
 class World:
     __slots__ = ("env", "cfg", "idx", "indexes", "calls", "auto", "max_queue", "max_results_table", "max_inflight",
-                 "full_wait")
+                 "full_wait", "failed", "inflight_at_failure", "full_wait_loops")
 
     def __init__(self, env, cfg):
         self.env = env
@@ -143,6 +167,9 @@ class World:
         self.max_results_table = 0
         self.max_inflight = 0
         self.full_wait = False
+        self.failed = None                  # number of the model call that raised (fail configurations)
+        self.inflight_at_failure = set()    # requests started and not returned when it raised
+        self.full_wait_loops = set()        # numbers of the loops in which a request found the queue full
 
 
 def _clear_dir(d):
@@ -164,6 +191,11 @@ def maker(cfg, scratch):
         global _CUR
         w = World(env, cfg)
         _CUR = w
+        special = bool(cfg.get("burst") or cfg.get("fail") or cfg.get("loops", 1) > 1)
+        if special:
+            C19Env.adopt(env, w, [k for k, r in enumerate(reqs) if r[2] == 1],
+                         second_loop=cfg.get("loops", 1) > 1, fail=cfg.get("fail"))
+            env.monitor = lambda: on_step(env, w)
         _GUARD.restore()    # no library-global container carries anything over from the previous execution
         if cache:
             store_config = {}
@@ -207,13 +239,16 @@ def maker(cfg, scratch):
                 for j in twins:
                     if not arr[j][3]:
                         return False
-                if rnd == 2:
+                if rnd == 2 and not getattr(env, "released", False):
                     for j in first:
                         if j not in res:
                             return False
                 return True
 
             env.arrival(k, f, gate)
+        if cfg.get("burst"):
+            for rnd in (1, 2):
+                env.burst([k for k, r in enumerate(reqs) if r[2] == rnd])
         return w
 
     return make
@@ -229,6 +264,7 @@ def on_step(env, w):
             w.max_results_table = n
         if idx._current_batch_submitted._waiters:
             w.full_wait = True
+            w.full_wait_loops.add(getattr(env, "old_loops", 0))
     n = 0
     for x in env._externals:
         if not x[1].done():
@@ -282,12 +318,20 @@ def req_name(k, kind, payload, which=0):
     return f"request {k} search({payload!r}, max_results=1){on}"
 
 
+_ADDR = re.compile(r" at 0x[0-9a-fA-F]+")
+
+
+def exc_text(e):
+    """the message of an exception without object addresses (they differ from run to run)"""
+    return _ADDR.sub("", f"{type(e).__name__}: {e}")
+
+
 def render(kind, res):
     """observed result -> plain data"""
     if res is None:
         return None
     if res[0] == "exc":
-        return {"raised": f"{type(res[1]).__name__}: {res[1]}"}
+        return {"raised": exc_text(res[1])}
     if res[0] != "ok":
         return {"ended": res[0]}
     v = res[1]
@@ -347,29 +391,52 @@ def judge(cfg, env, w, info):
     bgs = ""
     if bg:
         bgs = ":after-" + "+".join(sorted({f"{n.split('.')[-1]}-raised-{type(e).__name__}" for n, e in bg}))
-    bgtxt = "".join(f"; background task {n} died with {type(e).__name__}: {e}" for n, e in bg)
-    started = {lab[1] for lab in info["trace"] if lab[0] == "start"}
+    bgtxt = "".join(f"; background task {n} died with {exc_text(e)}" for n, e in bg)
+    started = env.started() if isinstance(env, C19Env) else {lab[1] for lab in info["trace"] if lab[0] == "start"}
+    failed = w.failed is not None       # a model call raised in this schedule (fail configurations only)
+    loop_of = getattr(env, "loop_of", {})
     all_texts = []
     for kind, payload, _r, _w in reqs:
         all_texts.extend(payload if kind == "G" else [payload])
     if outcome in ("horizon", "spin"):
         out.append((f"non-termination:{outcome}", f"the execution was stopped: {env.horizon}{bgtxt}"))
+    marks = []      # (first position in out, request) of every request
     for k, (kind, payload, _rnd, which) in enumerate(reqs):
+        marks.append((len(out), k))
         res = env.results.get(k)
         name = req_name(k, kind, payload, which)
+        if loop_of.get(k, 0) >= 1:
+            name += " (on the second event loop)"
         model = MODELS[which]
         if res is None:
             if k in started and outcome == "stuck":
                 names, fut = env.where_blocked(k)
                 at = _blocked_at(w, names, fut, which)
-                out.append((f"no-completion:{KIND[kind]}:{at}{bgs}",
-                            f"{name} never completes: no timer, model call or arrival is pending and it is "
-                            f"still waiting ({' > '.join(names[1:])}){bgtxt}"))
+                if failed:
+                    # one class whatever the kind of request: the blocked function is part of the name
+                    out.append((f"no-completion:{at}{bgs}",
+                                f"{name} never completes after model call {w.failed} (texts {w.calls[w.failed]!r}) "
+                                f"raised: no timer, model call or arrival is pending and it is still waiting "
+                                f"({' > '.join(names[1:])}){bgtxt}"))
+                else:
+                    out.append((f"no-completion:{KIND[kind]}:{at}{bgs}",
+                                f"{name} never completes: no timer, model call or arrival is pending and it is "
+                                f"still waiting ({' > '.join(names[1:])}){bgtxt}"))
             continue
         if res[0] == "exc":
             e = res[1]
-            out.append((f"exception:{KIND[kind]}:{type(e).__name__}@{_raise_site(e)}",
-                        f"{name} raised {type(e).__name__}: {e}"))
+            if failed and is_injected(e):
+                # the failure of the model reaches the caller: that is a completion.  Only a request that was
+                # under way when the call raised may see it
+                if k not in w.inflight_at_failure:
+                    out.append((f"stale-error:{KIND[kind]}",
+                                f"{name} arrived after model call {w.failed} had raised and was given that error"))
+                continue
+            if loop_of.get(k, 0) >= 1:
+                out.append((f"exception:{type(e).__name__}@{_raise_site(e)}", f"{name} raised {exc_text(e)}"))
+            else:
+                out.append((f"exception:{KIND[kind]}:{type(e).__name__}@{_raise_site(e)}",
+                            f"{name} raised {exc_text(e)}"))
             continue
         if res[0] != "ok":
             out.append((f"exception:{KIND[kind]}:{res[0]}", f"{name} ended {res[0]}"))
@@ -407,6 +474,7 @@ def judge(cfg, env, w, info):
                         how = "vector-of-another-model"
                 out.append((f"wrong-vector:search:{how}",
                             f"{name} found {texts!r}; the query's own embedding finds exactly [{payload!r}]"))
+    n_leftover = len(out)
     if outcome == "done":
         for idx in w.indexes:
             if idx._req_queue:
@@ -415,9 +483,23 @@ def judge(cfg, env, w, info):
             if idx._req_results:
                 out.append(("leftover:_req_results", f"all requests are done but _req_results still holds "
                                                      f"results for ids {sorted(idx._req_results)!r}"))
+    n_reqs_end = n_leftover
     # one class whatever the kind of request: a vector computed by another embedding model came out of the cache
     out = [("wrong-vector:vector-of-another-model-from-shared-cache", what) if sig.endswith(":vector-of-another-model")
            else (sig, what) for sig, what in out]
+    # the families with a special environment name what they see after it: everything seen in a schedule in which a
+    # model call raised; what a request shows that ran on the second event loop of the execution (and what is left
+    # over after that loop)
+    if failed:
+        out = [("model-call-raises:" + sig, what) for sig, what in out]
+    elif loop_of:
+        owner = {}
+        for (pos, k), nxt in zip(marks, [m[0] for m in marks[1:]] + [n_reqs_end]):
+            for i in range(pos, nxt):
+                owner[i] = k
+        out = [("second-event-loop:" + sig, what)
+               if (loop_of.get(owner[i], 0) >= 1 if i in owner else (i >= n_reqs_end and getattr(env, "switched", False)))
+               else (sig, what) for i, (sig, what) in enumerate(out)]
     if outcome == "stuck" and not out:
         raise RuntimeError(f"HARNESS: execution stuck without an unfinished started request: {info['trace']!r}")
     return out
@@ -430,7 +512,8 @@ def observe(env, w):
         repr([render(reqs[k][0], env.results.get(k)) for k in range(len(reqs))]),
         repr(w.calls),
         repr([(sorted(i._req_queue.items()), sorted(i._req_results), i._req_idx) for i in w.indexes]),
-        w.env.loop._vseq, w.env.loop.handles_run,
+        w.env.loop._vseq, w.env.loop.handles_run, w.failed, sorted(w.inflight_at_failure),
+        sorted(getattr(env, "loop_of", {}).items()),
     )
 
 
@@ -447,7 +530,8 @@ def replay_dict(cfg, env, w, info):
 
 
 def public_cfg(cfg):
-    return {k: cfg[k] for k in ("reqs", "mbs", "cache", "prewarm", "use_batching", "build", "granularity") if k in cfg}
+    return {k: cfg[k] for k in ("reqs", "mbs", "cache", "prewarm", "use_batching", "build", "granularity",
+                                "burst", "loops", "fail") if k in cfg}
 
 
 # ------------------------------------------------------------------ one configuration
@@ -471,7 +555,15 @@ def explore(task):
         "schedules_with_queue_full_wait": 0, "schedules_with_cache_hit": 0, "schedules_nontrivial": 0,
         "schedules_with_concurrent_model_calls": 0, "violating_schedules": 0, "requests_completed": 0,
         "vectors_checked": 0, "model_calls": 0, "model_texts_not_requested": 0,
+        "schedules_with_burst_arrival": 0, "schedules_with_queue_full_wait_at_quiescence_granularity": 0,
+        "schedules_with_model_call_raising": 0, "requests_ending_with_the_injected_failure": 0,
+        "schedules_with_later_round_released_after_failure": 0, "requests_served_after_a_model_failure": 0,
+        "schedules_with_second_event_loop": 0, "schedules_with_queue_full_wait_on_second_event_loop": 0,
+        "requests_completed_on_second_event_loop": 0,
     }
+    family = ("model-call-raises" if cfg.get("fail") else "second-event-loop" if cfg.get("loops", 1) > 1
+              else "burst-arrival" if cfg.get("burst") else "plain")
+    quiesc = cfg.get("granularity", "quiescence") == "quiescence"
     viol = {}
     outcomes = set()
     samples = []
@@ -495,7 +587,22 @@ def explore(task):
         shared = w.max_queue >= 2
         full = cancelled > 0 and bool(batched) and cfg["mbs"] > 1
         got = sum(len(c) for c in w.calls)
-        done_texts = sum((len(r[1]) if r[0] == "G" else 1) for k, r in enumerate(reqs) if k in env.results)
+        done_texts = sum((len(r[1]) if r[0] == "G" else 1) for k, r in enumerate(reqs)
+                         if k in env.results and env.results[k][0] == "ok")
+        counts["schedules_with_burst_arrival"] += bool(cfg.get("burst"))
+        counts["schedules_with_queue_full_wait_at_quiescence_granularity"] += bool(w.full_wait and quiesc)
+        if w.failed is not None:
+            counts["schedules_with_model_call_raising"] += 1
+            counts["requests_ending_with_the_injected_failure"] += sum(
+                1 for r in env.results.values() if r[0] == "exc" and is_injected(r[1]))
+            counts["schedules_with_later_round_released_after_failure"] += bool(env.released)
+            counts["requests_served_after_a_model_failure"] += sum(
+                1 for k, r in env.results.items() if r[0] == "ok" and k not in w.inflight_at_failure)
+        if getattr(env, "switched", False):
+            counts["schedules_with_second_event_loop"] += 1
+            counts["schedules_with_queue_full_wait_on_second_event_loop"] += 1 in w.full_wait_loops
+            counts["requests_completed_on_second_event_loop"] += sum(
+                1 for k, r in env.results.items() if r[0] == "ok" and env.loop_of.get(k, 0) >= 1)
         hit = bool(cfg.get("cache")) and info["outcome"] == "done" and got < n_texts
         counts["schedules_with_concurrent_model_calls"] += w.max_inflight >= 2
         counts["schedules_with_queue_full_wait"] += w.full_wait
@@ -534,10 +641,15 @@ def explore(task):
                     cur["what"] = (f"{what}  | config {public_cfg(cfg)!r} schedule "
                                    f"{' '.join(label_str(x) for x in trace)}")
                     cur["replay"] = replay_dict(cfg, env, w, info)
-        elif len(samples) < 1 and shared and w.calls and len(trace) >= 5 and info["deviations"] >= 1:
-            samples.append({"config": public_cfg(cfg), "schedule": " ".join(label_str(x) for x in trace),
+        elif len(samples) < 1 and w.calls and len(trace) >= 5 and info["deviations"] >= 1 and (
+                shared if family in ("plain", "burst-arrival") else w.failed is not None
+                if family == "model-call-raises" else getattr(env, "switched", False)):
+            samples.append({"family": family, "config": public_cfg(cfg),
+                            "schedule": " ".join(label_str(x) for x in trace),
                             "model_calls": [list(c) for c in w.calls], "outcome": info["outcome"],
-                            "results_equal_model": True})
+                            "results": [("raised the injected failure" if r[0] == "exc" else "equal to model(text)")
+                                        if r is not None else None for r in (env.results.get(k) for k in range(len(reqs)))],
+                            "results_equal_model_or_injected_failure": True})
 
     total = {"states": 0, "transitions": 0, "choices_executed": 0, "handles_run": 0, "executor_calls": 0,
              "traces_validated_against_impl": 0, "max_depth": 0, "max_enabled_choices": 0,
@@ -602,7 +714,7 @@ def explore(task):
     counts.update(total)
     result.update({"counts": counts, "violations": list(viol.values()), "samples": samples,
                    "distinct_outcomes": len(outcomes), "by_deviations": by_dev,
-                   "n_reqs": len(reqs), "granularity": cfg.get("granularity", "quiescence")})
+                   "n_reqs": len(reqs), "granularity": cfg.get("granularity", "quiescence"), "family": family})
     return result
 
 
@@ -612,7 +724,7 @@ def label_str(x):
     if x[0] == "timer":
         return f"timer{x[1]}"
     if x[0] == "ext":
-        return f"model{x[1][1]}"
+        return f"model{x[1][1]}" + ("-raises" if x[1][0] == "model-raises" else "")
     return x[0]
 
 
@@ -754,8 +866,77 @@ def tasks(tier):
                             continue
                         out.append({"reqs": reqs, "mbs": 2, "cache": list(cache), "prewarm": [],
                                     "use_batching": True, "build": "prebuilt"})
+    out += family_tasks(tier)
     for c in out:
         c.setdefault("granularity", "quiescence")
+    return out
+
+
+MODEL_FAILURE_FAMILY = True     # configurations in which one call of the embedding model may raise
+SECOND_LOOP_FAMILY = True       # configurations whose second round runs on a fresh event loop (same index objects)
+
+
+def _cfg(reqs, mbs, cache, prewarm, **kw):
+    c = {"reqs": list(reqs), "mbs": mbs, "cache": list(cache) if cache else None, "prewarm": list(prewarm),
+         "use_batching": True, "build": "prebuilt"}
+    c.update(kw)
+    return c
+
+
+def family_tasks(tier):
+    """bursts (all requests of a round arrive within one loop iteration), a model call that raises, a second round
+    on a fresh event loop"""
+    out = []
+    quick = tier == "quick"
+    # -- bursts: the requests of a round arrive together; one loop and (second-loop family) a fresh loop for round 2
+    pool_b = [B_A, B_B, S_A] if quick else [B_A, B_B, B_E, S_A]
+    sizes = (2, 3) if quick else (2, 3, 4)
+    loops_opts = (1, 2) if SECOND_LOOP_FAMILY else (1,)
+    for n1 in sizes:
+        for m1 in multisets(pool_b, n1):
+            for n2 in (0,) + sizes:
+                for m2 in (multisets(pool_b, n2) if n2 else [()]):
+                    if n1 + n2 > (5 if quick else 6):
+                        continue
+                    reqs = [(kd, p, 1) for kd, p in m1] + [(kd, p, 2) for kd, p in m2]
+                    for mbs in (1, 2) if quick else (1, 2, 3):
+                        if mbs >= max(n1, n2):
+                            continue        # nobody can find the queue full
+                        for cache, prewarm in CACHES_TWO:
+                            for loops in (loops_opts if n2 else (1,)):
+                                out.append(_cfg(reqs, mbs, cache, prewarm, burst=True, loops=loops))
+    if SECOND_LOOP_FAMILY:
+        # -- separate arrivals, second round on a fresh loop
+        pool_l = [B_A, B_B, G_EB, S_A] if quick else [B_A, B_B, B_E, G_ABA, G_EB, S_A]
+        for scen in scenarios(pool_l, 3 if quick else 4, max_second=2):
+            if scen[1]:
+                for c in variants(scen, CACHES_TWO if quick else CACHES_MAIN, api_build=False):
+                    if c["mbs"] != 3:
+                        out.append(dict(c, loops=2))
+        # -- loop-iteration granularity (a request can find the queue full without a burst), deviation bounded
+        for m, mbs in (((B_A, B_B), 1), ((B_A, B_B, B_E), 2)):
+            reqs = [(kd, p, 1) for kd, p in m] + [(kd, p, 2) for kd, p in m]
+            out.append(_cfg(reqs, mbs, None, (), loops=2, granularity="iteration", max_choices=800, dev_iter=True,
+                            max_dev=40, big=True, time_limit=12 if quick else 60))
+    if MODEL_FAILURE_FAMILY:
+        # -- every model call may raise (at most one per schedule); a second round shows that the index still serves
+        pool_f = [B_A, B_B, G_EB, S_A] if quick else [B_A, B_B, B_E, G_ABA, G_EB, S_A]
+        for scen in scenarios(pool_f, 3, max_second=1 if quick else 2):
+            for c in variants(scen, CACHES_TWO if quick else CACHES_MAIN, api_build=False):
+                out.append(dict(c, fail=True))
+        # ... and bursts: a failing batch while other requests wait for room in the queue
+        for n1 in (2, 3):
+            for m1 in multisets([B_A, B_B, S_A], n1):
+                for second in ((), (B_A,)):
+                    reqs = [(kd, p, 1) for kd, p in m1] + [(kd, p, 2) for kd, p in second]
+                    for mbs in (1, 2):
+                        for cache, prewarm in CACHES_TWO:
+                            out.append(_cfg(reqs, mbs, cache, prewarm, burst=True, fail=True))
+        if not quick:
+            # loop-iteration granularity
+            for m in multisets([B_A, B_B, G_EB], 2):
+                for c in variants((m, ()), CACHES_TWO):
+                    out.append(dict(c, fail=True, granularity="iteration", max_choices=400))
     return out
 
 
@@ -767,6 +948,8 @@ def weight(cfg):
         w *= 40
     if any(r[2] == 2 for r in cfg["reqs"]):
         w /= 3
+    if cfg.get("fail") or cfg.get("burst") or cfg.get("loops", 1) > 1:
+        w *= 100    # the three small families first (seconds of CPU in total): a time cap never cuts them
     if cfg.get("big"):
         w = 0       # the deviation-bounded configurations run last, each within its own time limit
     return w
@@ -820,11 +1003,19 @@ def _run(rep, tier, base, par):
     by_req = {}
     dev_done = []
     n_exhaustive = 0
+    by_family = {}
+    samples_by_family = {}
     for res in par.pmap(explore, ts, chunksize=1):
         done += 1
         rep.merge_counts(res["counts"])
         rep.add("distinct_outcomes", res["distinct_outcomes"])
         key = f"{res['n_reqs']}-requests" + ("-loop-iteration-granularity" if res["granularity"] == "iteration" else "")
+        fam = by_family.setdefault(res["family"], {"configs": 0, "schedules": 0, "exhaustive_configs": 0,
+                                                   "violating_schedules": 0})
+        fam["configs"] += 1
+        fam["schedules"] += res["counts"]["schedules"]
+        fam["exhaustive_configs"] += bool(res["exhaustive"])
+        fam["violating_schedules"] += res["counts"]["violating_schedules"]
         slot = by_req.setdefault(key, {"configs": 0, "schedules": 0, "exhaustive_configs": 0})
         slot["configs"] += 1
         slot["schedules"] += res["counts"]["schedules"]
@@ -839,7 +1030,8 @@ def _run(rep, tier, base, par):
             else:
                 incomplete.append(public_cfg(cfg))
         for s in res["samples"]:
-            rep.sample(s)
+            if len(samples_by_family.setdefault(s["family"], [])) < 2:
+                samples_by_family[s["family"]].append(s)
         for v in res["violations"]:
             v["size"] = tuple(v["size"])
             cur = by_sig.get(v["signature"])
@@ -850,6 +1042,11 @@ def _run(rep, tier, base, par):
                 by_sig[v["signature"]] = v
             else:
                 cur["n"] += v["n"]
+    for i in (0, 1):        # one sample of every family first (at most 6 are kept)
+        for f in sorted(samples_by_family):
+            if i < len(samples_by_family[f]):
+                rep.sample(samples_by_family[f][i])
+    rep.set("by_family", by_family)
     new = 0
     for sig in sorted(by_sig, key=lambda s: (by_sig[s]["size"], s)):
         v = by_sig[sig]
@@ -890,8 +1087,17 @@ def _run(rep, tier, base, par):
         "event the FIFO ready queue is drained; asyncio's ready queue is never permuted.  In the configurations "
         "marked loop-iteration-granularity external events may also land between any two loop iterations",
         "all hold timers have the same delay, so they fire in creation order; any timer may beat any model answer or arrival",
-        "the embedding model always answers (no failures, no cancellation of requests); its answer depends on the "
-        "texts it was given at call time only",
+        "the embedding model always answers and its answer depends on the texts it was given at call time only; in the "
+        "family model-call-raises every model call has a second possible answer - it raises ModelCallFailed (a "
+        "ConnectionError) - and at most one call raises in one schedule.  There a request may also end with that error "
+        "if it was under way when the call raised; nobody may wait for ever, requests arriving later get model(text), "
+        "and when requests were left waiting the next round is released once nothing else can happen.  No "
+        "cancellation of requests",
+        "family burst-arrival: all requests of a round are started within one loop iteration (asyncio.gather); at "
+        "quiescence granularity this is how a request finds the batch queue full",
+        "family second-event-loop: the requests of round 2 run on a fresh event loop after the first one was wound up "
+        "as asyncio.run does (remaining tasks cancelled, loop closed); the index objects are the same.  Two loops "
+        "never run at the same time (no threads)",
         "a small family of configurations has two indexes with different embedding models that are given the same "
         "cache settings (every other configuration has one index)",
         "texts from {'a','b','','c'}; request pool: _batch_get_embeddings(t), _get_embeddings([a,b,a] / ['',b] / []), "
@@ -902,7 +1108,8 @@ def _run(rep, tier, base, par):
         "identical requests of one round arrive in index order (symmetry reduction); requests of round 2 arrive after "
         "every request of round 1 returned",
         "bounds: quick = all multisets of <=3 requests (<=2 in a second round) + one 4-request batch scenario; thorough "
-        "= <=4 requests completely, 5 requests and 3 requests at loop-iteration granularity up to the reported deviation bound",
+        "= <=4 requests completely, 5 requests and 3 requests at loop-iteration granularity up to the reported deviation bound; "
+        "families: bursts of 2-3 [thorough 2-4] requests per round, two rounds; a failing model call with <=3 requests",
         "_req_queue/_req_results are demanded empty only when every request has returned; the number of model calls "
         "and cache hits are counted, not demanded",
     ]
@@ -946,8 +1153,12 @@ def replay(rp):
             for k, (kd, p, _r, wh) in enumerate(cfg["reqs"]):
                 obs = render(kd, env.results.get(k))
                 exp = expected(kd, p, wh)
-                print(f"  {req_name(k, kd, p, wh)}\n     expected {exp}\n     observed {obs}"
-                      f"{'' if obs == exp else '   <-- differs'}")
+                res = env.results.get(k)
+                if cfg.get("fail") and res is not None and res[0] == "exc" and is_injected(res[1]):
+                    note = "   (the failure of the model call reaches the caller: a completion)"
+                else:
+                    note = "" if obs == exp else "   <-- differs"
+                print(f"  {req_name(k, kd, p, wh)}\n     expected {exp}\n     observed {obs}{note}")
             for n, e in env.background_failures():
                 print(f"  background task {n} died: {type(e).__name__}: {e}")
             info = {"trace": sched, "outcome": outcome if outcome != "open" else "done", "deviations": 0}
